@@ -326,6 +326,16 @@ def run(pid, tier, seed):
                 print(f"NOTE property=C18 sentry.h: {len(u_rej)} of {u_n} endpoint cases rejected by QtlJson!SentryUrl (first: {str(u_rej[0])[:300]})", flush=True)
         except C.ToolFailure as e:
             print("NOTE property=C18 sentry.h conformance could not run: " + str(e)[:300], flush=True)
+        # ... and the sink they leave the process through (spec/QtlHttp.tla; a collector on the loopback interface)
+        try:
+            from . import http_spec
+            h_acc, h_fail, h_info = http_spec.campaign(rnd, 12 if tier == "quick" else 400, C.BUILD / "work" / "http")
+            url_info["http_sink (spec/QtlHttp.tla)"] = dict(h_info, accepted_runs=h_acc, rejected_runs=len(h_fail))
+            if h_fail:
+                print(f"NOTE property=C18 the HttpSink machine (spec/QtlHttp.tla) rejected {len(h_fail)} of {h_info['runs']} runs "
+                      f"(first: event {str(h_fail[0]['event'])[:200]})", flush=True)
+        except (C.ToolFailure, subprocess.TimeoutExpired) as e:
+            print("NOTE property=C18 HttpSink conformance could not run: " + str(e)[:300], flush=True)
     kinds = {}
     nontrivial = 0
     for c in cases:
